@@ -8,6 +8,11 @@
 (* decides is HOW OFTEN a handshake is started and whether a sender is     *)
 (* ever left without a usable session.                                     *)
 (*                                                                         *)
+(* After the traffic a case may go silent until every session has expired,  *)
+(* and then either the same peer resumes (C07: a new handshake, traffic    *)
+(* flows) or a party with another acceptable key takes the peer's place    *)
+(* (C05: the binding outlives the sessions, nothing is exchanged with it). *)
+(*                                                                         *)
 (* Case generator + oracle: every (K, R, J, pattern) of the configuration  *)
 (* is one behaviour; harness/cmd/chanreplay -timed runs the same traffic   *)
 (* pattern on two real channels with K, R, J scaled to milliseconds and    *)
@@ -18,12 +23,16 @@ EXTENDS Naturals, Sequences, FiniteSets, TLC, Json
 
 CONSTANTS Ks, Rs, Js,       \* sets of keep-alive / rekey / reject intervals, in ticks
           Patterns,         \* subset of {"both", "a2b", "b2a"}
-          Horizon           \* number of ticks of traffic
+          Horizon,          \* number of ticks of traffic
+          Posts             \* what follows the traffic: subset of {"none", "stranger"}
 
 Ch == {"a", "b"}
 Peer(c) == IF c = "a" THEN "b" ELSE "a"
 
-VARIABLES K, R, J, pat,     \* the case
+VARIABLES K, R, J, pat, post, \* the case
+          bound,            \* [Ch -> key the channel is bound to]: set by the first ready session, NEVER reset
+          phase,            \* "traffic" | "silent" | "stranger" | "end"
+          strangerIn,       \* a handshake with a party holding another (acceptable) key completed
           t,
           est,              \* a current session exists
           created,          \* tick at which the current session was created
@@ -31,17 +40,20 @@ VARIABLES K, R, J, pat,     \* the case
           lastRecv,         \* [Ch -> tick of the last authenticated receive through the current session]
           hellos,           \* InitHellos started so far
           failed            \* a Send found no session and could not get one (never, with instantaneous handshakes)
-vars == <<K, R, J, pat, t, est, created, initSide, lastRecv, hellos, failed>>
+vars == <<K, R, J, pat, post, bound, phase, strangerIn, t, est, created, initSide, lastRecv, hellos, failed>>
+KeyOf(c) == IF c = "a" THEN "A" ELSE "B"
 
 Senders == IF pat = "both" THEN Ch ELSE IF pat = "a2b" THEN {"a"} ELSE {"b"}
 
-Init == /\ K \in Ks /\ R \in Rs /\ J \in Js /\ pat \in Patterns
+Init == /\ K \in Ks /\ R \in Rs /\ J \in Js /\ pat \in Patterns /\ post \in Posts
+        /\ bound = [c \in Ch |-> "none"] /\ phase = "traffic" /\ strangerIn = FALSE
         /\ K < J /\ R < J
         /\ t = 0 /\ est = FALSE /\ created = 0 /\ initSide = "a"
         /\ lastRecv = [c \in Ch |-> 0] /\ hellos = 0 /\ failed = FALSE
 
 \* a handshake started by c at tick t (instantaneous): onReadySession sets lastReceived on both sides
 Handshake(c) == /\ est' = TRUE /\ created' = t /\ initSide' = c
+                /\ bound' = [x \in Ch |-> IF bound[x] = "none" THEN KeyOf(Peer(x)) ELSE bound[x]]
                 /\ lastRecv' = [x \in Ch |-> t] /\ hellos' = hellos + 1
 
 \* expireSessions as seen by endpoint c at tick t
@@ -49,7 +61,7 @@ Expired(c) == est /\ (t - created >= J \/ t - lastRecv[c] > K)
 
 \* one tick: the rekey timer of the initiating side, then every sender sends one message
 Step ==
-    /\ t < Horizon
+    /\ t < Horizon /\ phase = "traffic"
     /\ t' = t + 1
     /\ LET rekeyDue == est /\ t - created >= R
            \* the first sender (if any) that finds its session expired re-initiates
@@ -59,18 +71,43 @@ Step ==
           ELSE IF needy # {}
           THEN Handshake(IF "a" \in needy THEN "a" ELSE "b")
           ELSE /\ lastRecv' = [x \in Ch |-> IF Peer(x) \in Senders THEN t ELSE lastRecv[x]]
-               /\ UNCHANGED <<est, created, initSide, hellos>>
-    /\ UNCHANGED <<K, R, J, pat, failed>>
+               /\ UNCHANGED <<est, created, initSide, hellos, bound>>
+    /\ UNCHANGED <<K, R, J, pat, post, phase, strangerIn, failed>>
 
-Spec == Init /\ [][Step]_vars
+\* after the traffic: nothing is sent or received for longer than the reject interval - every session of both
+\* endpoints expires (expireSessions drops previous, current and prospective alike); the binding stays
+Silence ==
+    /\ t = Horizon /\ phase = "traffic" /\ post \in {"stranger", "resume"}
+    /\ phase' = "silent" /\ t' = t + J + K + 1 /\ est' = FALSE
+    /\ UNCHANGED <<K, R, J, pat, post, bound, strangerIn, created, initSide, lastRecv, hellos, failed>>
+\* then a party with ANOTHER key, which AcceptKey would accept, takes the peer's place and both sides try to
+\* handshake and send: checkKey compares with the bound key, so no session with it ever becomes ready
+CheckKey(c, k) == IF bound[c] # "none" THEN bound[c] = k ELSE TRUE
+Stranger ==
+    /\ phase = "silent" /\ post = "stranger"
+    /\ phase' = "end"
+    /\ strangerIn' = CheckKey("a", "C")
+    /\ UNCHANGED <<K, R, J, pat, post, bound, t, est, created, initSide, lastRecv, hellos, failed>>
+
+\* or the same peer resumes: the first Send finds no session, initiates, and traffic flows again
+Resume ==
+    /\ phase = "silent" /\ post = "resume"
+    /\ phase' = "end"
+    /\ Handshake("a")
+    /\ UNCHANGED <<K, R, J, pat, post, strangerIn, t, failed>>
+
+Spec == Init /\ [][Step \/ Silence \/ Stranger \/ Resume]_vars
+\* C05: the key a channel talks to never changes, however long it was silent
+ContinuityT == ~strangerIn /\ \A c \in Ch : bound[c] \in {"none", KeyOf(Peer(c))}
 
 \* the number of handshakes a healthy pair needs up to tick t: the first one, one per rekey interval,
 \* and - only when an endpoint never RECEIVES anything - one per keep-alive interval
 Div(a, b) == a \div b
 MaxHellosAt(tt) == 1 + Div(tt, R) + (IF pat = "both" THEN 0 ELSE Div(tt, K) + 1)
-NoIdleTeardown == hellos <= MaxHellosAt(t)
+NoIdleTeardown == (phase = "traffic") => hellos <= MaxHellosAt(t)
 NeverWithoutSession == ~failed
 
-Dump == (t = Horizon) => PrintT(ToJson(<<"CASE", [K |-> K, R |-> R, J |-> J, pat |-> pat, horizon |-> Horizon,
-                                               hellos |-> hellos, maxhellos |-> MaxHellosAt(Horizon)]>>))
+Dump == (t = Horizon /\ phase = "traffic") =>
+           PrintT(ToJson(<<"CASE", [K |-> K, R |-> R, J |-> J, pat |-> pat, horizon |-> Horizon, post |-> post,
+                                    hellos |-> hellos, maxhellos |-> MaxHellosAt(Horizon)]>>))
 =============================================================================
